@@ -536,6 +536,8 @@ mod io;
 pub mod prelude;
 mod sinks;
 mod types;
+#[cfg(cadence_verif)]
+mod verif_shim;
 
 // Utilities for running integration tests with Unix datagram sockets.
 #[cfg(unix)]
